@@ -6,8 +6,8 @@ argument, and substitution of the resulting bindings into the function's result 
 
 Mirrors, arm by arm and in source order,
   * /repo/quiver-compiler/src/compiler/typing.rs  `contains_variables`, `substitute`, `unify`
-    — as of fix 8f4b36d (a concrete union argument must unify in EVERY variant with a non-union
-    parameter). The rule before that fix ("ANY variant") is kept as `UnionArgRule.anyVariant`, so
+    — as of fixes 8f4b36d (a concrete union argument must unify in EVERY variant with a non-union
+    parameter) and e4496af (the union/union arm adopts the bindings of the matching attempt). The rule before that fix ("ANY variant") is kept as `UnionArgRule.anyVariant`, so
     that `Theorems/C01.lean` can show, by evaluation, that soundness depends on the fix.
   * `union_type_ids` is `QM.Types.unionIds` (C09's module `Core/Types/Narrow.lean`, read-only).
 
@@ -55,24 +55,28 @@ inductive CycleRule where
   | strict
   deriving DecidableEq, Repr
 
-/-- The rule for merging the bindings of a matched variant in the union/union arm. -/
+/-- The rule for the bindings of a matched variant in the union/union arm. -/
 inductive MergeRule where
-  /-- current code: a binding that is not assignable to the existing one is *skipped*. -/
+  /-- current code (fix e4496af): `*bindings = temp_bindings` — the attempt's bindings, which started
+  from the current ones and hold whatever widening the variant required, are adopted. -/
+  | adopt
+  /-- the code before e4496af: the attempt's bindings are merged one by one, and a binding that is
+  not assignable to the existing one is *skipped* (dropping the widening). -/
   | skipIncompatible
-  /-- alternative used to classify findings: always take the (widened) binding of the attempt. -/
-  | takeWidened
   deriving DecidableEq, Repr
 
 /-- The switches of the unification algorithm. `Rules.current` is the code as it is. -/
 structure Rules where
   unionArg : UnionArgRule := .everyVariant
   cycle : CycleRule := .lenient
-  merge : MergeRule := .skipIncompatible
+  merge : MergeRule := .adopt
   deriving DecidableEq, Repr
 
 def Rules.current : Rules := {}
 /-- the code before fix 8f4b36d. -/
 def Rules.beforeF6 : Rules := { unionArg := .anyVariant }
+/-- the code before fix e4496af. -/
+def Rules.beforeMergeFix : Rules := { merge := .skipIncompatible }
 
 /-! ### `contains_variables` -/
 
@@ -202,7 +206,7 @@ def firstU {α : Type} (f : Table → Bindings → α → URes) : Table → Bind
     | some (T1, some b1) => some (T1, some b1)
     | some (T1, none) => firstU f T1 b xs
 
-/-- the merge loop of the union/union arm:
+/-- the merge loop of the union/union arm BEFORE e4496af:
 `for (k, v) in temp { if let Some(e) = bindings.get(k) && !is_compatible(v, e) { continue } bindings.insert(k, v) }`.
 `none` = the compatibility check ran out of fuel. -/
 def mergeBindings (mr : MergeRule) (T : Table) (cf : Nat) : Bindings → Bindings → Option Bindings
@@ -211,13 +215,16 @@ def mergeBindings (mr : MergeRule) (T : Table) (cf : Nat) : Bindings → Binding
     match b.get k with
     | none => mergeBindings mr T cf (b.insert k v) rest
     | some e =>
-      match mr with
-      | .takeWidened => mergeBindings mr T cf (b.insert k v) rest
-      | .skipIncompatible =>
-        match isCompatible T cf v e with
-        | none => none
-        | some false => mergeBindings mr T cf b rest
-        | some true => mergeBindings mr T cf (b.insert k v) rest
+      match isCompatible T cf v e with
+      | none => none
+      | some false => mergeBindings mr T cf b rest
+      | some true => mergeBindings mr T cf (b.insert k v) rest
+
+/-- what the union/union arm does with the bindings `temp` of a successful attempt. -/
+def adoptBindings (mr : MergeRule) (T : Table) (cf : Nat) (b temp : Bindings) : Option Bindings :=
+  match mr with
+  | .adopt => some temp
+  | .skipIncompatible => mergeBindings mr T cf b temp
 
 /-- the outer loop of the union/union arm: every concrete variant must unify with some pattern
 variant (first match), whose bindings are merged. -/
@@ -229,7 +236,7 @@ def unionUnion (mr : MergeRule) (cf : Nat) (rec : Table → Bindings → Nat →
     | none => none
     | some (T1, none) => some (T1, none)
     | some (T1, some temp) =>
-      match mergeBindings mr T1 cf b temp with
+      match adoptBindings mr T1 cf b temp with
       | none => none
       | some b1 => unionUnion mr cf rec pvs T1 b1 cvs
 
